@@ -62,6 +62,13 @@ Theorem C03_within_window_less_skip : forall sz m0 l skip s x,
 Proof. intros sz m0 l skip s x Hn Hl Hk Hs. exact (never_in_skip sz m0 l skip s Hn Hl Hk Hs x). Qed.
 Print Assumptions C03_within_window_less_skip.
 
+(* the list never contains a number twice (the hypothesis NoDup of the limit theorems below holds
+   for every list the log can produce) *)
+Theorem C03_missing_nodup : forall sz m0 l skip,
+  new_log sz = Some m0 -> all_u16 l -> 0 <= skip < 65536 -> NoDup (missing (add_all m0 l) skip).
+Proof. exact missing_NoDup. Qed.
+Print Assumptions C03_missing_nodup.
+
 (* the executed closed form of the slot-clearing loop of add is the literal loop *)
 Theorem C03_clear_loop_closed_form : forall sz, valid_size sz -> forall n f E q, 0 <= q < sz ->
   del_loop f sz ((E + 1) mod 65536) n q = clear_range f sz (E mod 65536) (Z.of_nat n) q.
